@@ -8,14 +8,14 @@ From Coq Require Import List Ascii String Bool ZArith.
 Import ListNotations.
 Local Open Scope string_scope.
 
-Inductive ukind := UWrite | URead | UOther | UCallNC | UPass | UStore | UUnknown.
+Inductive ukind := UWrite | URead | UOther | UCallNC | UPass | UStore | UParam | UUnknown.
 
 Record cuse := mkU { u_fn : string; u_kind : ukind; u_name : string; u_line : nat }.
 
 Definition ukind_eqb (a b : ukind) : bool :=
   match a, b with
   | UWrite, UWrite | URead, URead | UOther, UOther | UCallNC, UCallNC | UPass, UPass | UStore, UStore
-  | UUnknown, UUnknown => true
+  | UParam, UParam | UUnknown, UUnknown => true
   | _, _ => false
   end.
 
@@ -36,6 +36,11 @@ Definition modelled_writes : list (string * string) :=
    ("Legalizer::exportPlacement", "cellOrientation_");
    ("DetailedPlacement::exportPlacement", "cellX_"); ("DetailedPlacement::exportPlacement", "cellY_");
    ("DetailedPlacement::exportPlacement", "cellOrientation_")].
+
+(* functions of the library that write placement fields but that no stage can reach (nothing hands them a circuit):
+   the only writers tolerated outside [modelled_writes], and only while they stay unreachable *)
+Definition dead_writers : list string :=
+  ["NetModel::exportPlacementX"; "NetModel::exportPlacementY"; "IncrNetModel::exportPlacementX"; "IncrNetModel::exportPlacementY"].
 
 Definition mem (s : string) (l : list string) : bool := existsb (String.eqb s) l.
 Definition mem2 (p : string * string) (l : list (string * string)) : bool :=
@@ -88,12 +93,15 @@ Definition closedb (uses : list cuse) (s : list string) : bool :=
 Definition use_okb (uses : list cuse) (r_all r_glob : list string) (u : cuse) : bool :=
   match u_kind u with
   | URead => true
-  | UPass => true
+  | UParam => true
+  (* the callee of a hand-over is a function of the table (it has at least its UParam / UStore entry): the circuit
+     never escapes to code the table does not describe *)
+  | UPass => existsb (fun v => String.eqb (u_fn v) (u_name u)) uses
   | UStore => true
   | UWrite =>
       mem (u_name u) flag_fields
       || (mem (u_name u) placement_fields
-          && (mem2 (u_fn u, u_name u) modelled_writes || negb (mem (u_fn u) r_all))
+          && (mem2 (u_fn u, u_name u) modelled_writes || (mem (u_fn u) dead_writers && negb (mem (u_fn u) r_all)))
           && negb (String.eqb (u_name u) "cellOrientation_" && mem (u_fn u) r_glob))
   | UOther | UCallNC | UUnknown => false
   end.
@@ -121,11 +129,12 @@ Definition uses_ok (uses : list cuse) : Prop :=
     closed uses R /\ closed uses Rg /\ (forall e, In e entries -> In e R) /\ In entry_global Rg /\
     (forall u, In u uses ->
        match u_kind u with
-       | URead | UPass | UStore => True
+       | URead | UStore | UParam => True
+       | UPass => exists v, In v uses /\ u_fn v = u_name u
        | UWrite =>
            In (u_name u) flag_fields \/
            (In (u_name u) placement_fields /\
-            (In (u_fn u, u_name u) modelled_writes \/ ~ In (u_fn u) R) /\
+            (In (u_fn u, u_name u) modelled_writes \/ (In (u_fn u) dead_writers /\ ~ In (u_fn u) R)) /\
             ~ (u_name u = "cellOrientation_" /\ In (u_fn u) Rg))
        | UOther | UCallNC | UUnknown => False
        end).
